@@ -484,6 +484,12 @@ func (b *baseScreen) PostEventWait(ev Event) {
 }
 
 func (b *baseScreen) PostEvent(ev Event) error {
+	// a finished screen delivers nothing more: do not accept what would never arrive
+	select {
+	case <-b.StopQ():
+		return ErrEventQFull
+	default:
+	}
 	select {
 	case b.EventQ() <- ev:
 		return nil
